@@ -29,6 +29,7 @@ func init() {
 // ---- stream builder ----
 
 type sender struct {
+	hist     []byte // plain text window of the compressed messages sent so far (context takeover)
 	r        *Rng
 	masked   bool
 	flate    bool
@@ -61,7 +62,19 @@ func (s *sender) frame(f rawFrame) {
 func (s *sender) compress(p []byte, level int, bfinal bool) []byte {
 	if s.fw == nil || !s.takeover || bfinal {
 		s.fbuf = &bytes.Buffer{}
-		s.fw, _ = flate.NewWriter(s.fbuf, level)
+		if s.takeover && len(s.hist) > 0 {
+			// a fresh DEFLATE stream inside a connection with context takeover still refers to the LZ77 window of the messages
+			// before it (RFC 7692 7.2.3.2): the receiver must have kept ALL of their bytes, also the last ones of a BFINAL message
+			s.fw, _ = flate.NewWriterDict(s.fbuf, level, s.hist)
+		} else {
+			s.fw, _ = flate.NewWriter(s.fbuf, level)
+		}
+	}
+	if s.takeover {
+		s.hist = append(s.hist, p...)
+		if len(s.hist) > 32768 {
+			s.hist = append([]byte(nil), s.hist[len(s.hist)-32768:]...)
+		}
 	}
 	s.fbuf.Reset()
 	s.fw.Write(p)
@@ -260,7 +273,7 @@ func genWireIn(r *Rng, tier string, stat func(string)) []string {
 			compressed := ec.Flate && r.Intn(3) > 0
 			frag := r.PickS([]string{"none", "none", "random", "random", "bytes", "empty"})
 			level := r.Pick([]int{flate.BestSpeed, flate.BestSpeed, flate.DefaultCompression, flate.HuffmanOnly, flate.NoCompression})
-			bfinal := compressed && !takeover && r.Intn(6) == 0 && !bfinalUsed
+			bfinal := compressed && r.Intn(6) == 0 && (!bfinalUsed || takeover)
 			payload := Payload(GenField(r, sz))
 			if compressed && r.Intn(6) == 0 {
 				payload = GenBytes("const", 50000+r.Intn(100000), r.Intn(1000)) // highly compressible (> 1000:1)
@@ -378,6 +391,24 @@ func genWireIn(r *Rng, tier string, stat func(string)) []string {
 					}
 				}
 			}
+		}
+	}
+	// context takeover across a BFINAL-terminated message: the same text is sent again and again, so every later message is made of
+	// back-references into the earlier ones — also into the last bytes of a message whose DEFLATE stream ended with a final block
+	for _, role := range []string{"client", "server"} {
+		for _, rb := range []string{"A", "a1", "a7", "a512", "a4096"} {
+			co := "00"
+			cfg := fmt.Sprintf("role=%s co=%s mode=takeover thr=0", role, co)
+			s := &sender{r: r, masked: role == "server", flate: true, takeover: true}
+			text := GenBytes("text", 700, 77)
+			var ops []string
+			for m := 0; m < 5; m++ {
+				// DefaultCompression: the level-1 encoder ignores a preset dictionary, so only levels >= 2 refer back across a fresh stream
+				s.message(1, text[:300+100*m], true, r.PickS([]string{"none", "random"}), false, flate.DefaultCompression, m%2 == 0)
+				ops = append(ops, "R", rb)
+			}
+			ops = append(ops, "R")
+			add(cfg, "100000", "eof", 0, ops, s.out, []string{"bfinal-takeover-repeat"})
 		}
 	}
 	return out
